@@ -94,8 +94,7 @@ def run_one(args):
                        'sock_none': s['sock_none'], 'sent': s['sent'][base_sent:], 'inds': s['inds'][base_inds:],
                        'assoc': told['assoc'], 'ended': told.get('ended', False), 'mid_state': mid_state})
     except Exception as e:  # pylint: disable=broad-except
-        import traceback
-        return ('harness', traceback.format_exc()[-600:])
+        return ('harness', common.describe_exc(e))
 
 
 def judge(state, stream, res, first_pdu_info):
@@ -187,7 +186,7 @@ def run(chk):
     sent_all = {}
     for (state, stream, _), (err, res) in zip(jobs, results):
         if err:
-            raise common.Infra('harness error in %s on %s: %s' % (state, stream[:20].hex(), res))
+            common.raise_for('%s [state %s, stream %s]' % (res, state, stream[:20].hex()))
         framed, undec = info[stream]
         chk.case(state + stream.hex()[:400], not (framed and not undec),
                  {'state': state, 'stream': stream[:24].hex() + ('..' if len(stream) > 24 else ''), 'first_pdu': 'undecodable' if undec else ('framed' if framed else 'incomplete')}
